@@ -116,6 +116,7 @@ def run_method(F, role, method, pending, args_kind="some"):
     I.bounds = Bounds()
     if pending is not None:
         I.bounds = I.bounds.with_ub(p, c)
+        I.bounds.add_le(1, c)  # 0 <= p < c
 
     def hook_eval(I_, args, node):
         lc = I_.deref(args[1])
